@@ -10,10 +10,14 @@ as if in some sequential order: no registry's latest report is lost and nothing 
 registry or deleted service remains."
 
 The model is `Conc.lean` (lock regions of `UpdateServiceEndpoints`, single-region deletes, any
-number of goroutines, any schedule).  `Linearizable fixed` is the full statement.  It is proved for
-the repaired code (`index_linearizable`), refuted for the pinned code by a 2-operation, 4-region
-schedule (`lost_update_witness_unfixed`, finding F4) and proved for the pinned code on the schedules
-in which no write region lands on an orphan (`index_linearizable_partial_unfixed`).
+number of goroutines, any schedule).  `Linearizable fixed` is the full statement: the final index is
+the sequential execution of the operations **in their commit order** (`Cfg.log`), which is a
+permutation of the operations and respects real time (`commit_order_respects_real_time`: an
+operation that completed before another took its first step precedes it).  It is proved for the
+repaired code (`index_linearizable`), refuted for the pinned code by a 2-operation, 4-region schedule
+(`lost_update_witness_unfixed`, finding F4; `lost_update_no_sequential_order`: no order at all explains
+that run) and proved for the pinned code on the schedules in which no write region lands on an
+orphan (`index_linearizable_partial_unfixed`).
 -/
 
 /-! ## Heap regions are the sequential operations on the linked objects -/
@@ -32,7 +36,7 @@ theorem heap_deleteInner_gen (h : Heap) (sk : ShardKey) (k : Key) (p : Bool) :
 
 theorem heap_index_deleteInner (h : Heap) (sk : ShardKey) (k : Key) (p : Bool) :
     (h.deleteInner sk k p).index = deleteInner h.index sk k p := by
-  funext k'
+  apply Index.ext; intro k'
   rw [deleteInner_apply]
   by_cases hl : h.linked k = true
   · by_cases hk : k' = k
@@ -57,7 +61,7 @@ theorem heap_index_deleteShard (h : Heap) (sk : ShardKey) (skip : Key → Bool) 
 
 theorem heap_index_setObj_live (h : Heap) (k : Key) (ss : ShardSet) (hl : h.linked k = true) :
     (h.setObj k (h.gen k) ss).index = h.index.set k (some ss) := by
-  funext k'
+  apply Index.ext; intro k'
   simp only [Heap.setObj, Heap.index, Index.set]
   by_cases hk : k' = k
   · subst hk; simp [hl]
@@ -65,7 +69,7 @@ theorem heap_index_setObj_live (h : Heap) (k : Key) (ss : ShardSet) (hl : h.link
 
 theorem heap_index_create (h : Heap) (k : Key) (hl : h.linked k = false) :
     (h.create k).index = h.index.set k (some ShardSet.empty) := by
-  funext k'
+  apply Index.ext; intro k'
   simp only [Heap.create, Heap.index, Index.set]
   by_cases hk : k' = k
   · subst hk; simp
@@ -179,7 +183,7 @@ theorem sim_deleteShard {h : Heap} {ts : List Thread} {S : Index} {i : Nat} {t t
     (sk : ShardKey) (skip : Key → Bool)
     (hsim : Sim h ts S) (hi : ts[i]? = some t) (hnp : ∀ k g, ¬ t.pendingAt k g) :
     Sim (h.deleteShard sk skip) (ts.set i t')
-      (fun k => if skip k then S k else (S k).bind (fun ss => delSS ss sk false)) := by
+      ⟨fun k => if skip k then S k else (S k).bind (fun ss => delSS ss sk false)⟩ := by
   intro k
   rw [heap_index_deleteShard, heap_deleteShard_gen]
   have hk : h.index k = S k ∨ (h.index k = some ShardSet.empty ∧ S k = none ∧ Wit (ts.set i t') k (h.gen k)) := by
@@ -214,13 +218,13 @@ theorem sim_write {h : Heap} {ts : List Thread} {S : Index} {i : Nat} {t t' : Th
       rw [h2, h3]; rfl
 
 theorem step_deleteShard (S : Index) (sk : ShardKey) :
-    step S (.deleteShard sk) = fun k => if (fun _ => false) k = true then S k else (S k).bind (fun ss => delSS ss sk false) := by
-  funext k; simp [step, apply, deleteShard_st]
+    step S (.deleteShard sk) = ⟨fun k => if (fun _ => false) k = true then S k else (S k).bind (fun ss => delSS ss sk false)⟩ := by
+  apply Index.ext; intro k; simp [step, apply, deleteShard_st]
 
 theorem step_prune (S : Index) (sk : ShardKey) (keep : List Key) :
     step S (.prune sk keep) =
-      fun k => if (fun k => decide (k ∈ keep)) k = true then S k else (S k).bind (fun ss => delSS ss sk false) := by
-  funext k; simp [step, apply, pruneShard_st]
+      ⟨fun k => if (fun k => decide (k ∈ keep)) k = true then S k else (S k).bind (fun ss => delSS ss sk false)⟩ := by
+  apply Index.ext; intro k; simp [step, apply, pruneShard_st]
 
 theorem step_update_empty (S : Index) (sk : ShardKey) (k : Key) :
     step S (.update sk k []) = deleteInner S sk k true := by
@@ -483,26 +487,192 @@ theorem no_wit_of_allDone {c : Cfg} (hd : c.allDone = true) (k : Key) (g : Nat) 
   rw [hpc] at this
   simp [PC.isDone] at this
 
+/-! ## The commit order respects real time -/
+
+/-- The commit-order invariant (both code variants): the thread-index log has no duplicates, holds
+    exactly the threads that are done, and the operation log is its image. -/
+structure LogInv (ops : List Op) (c : Cfg) : Prop where
+  opsEq : c.threads.map (·.op) = ops
+  nodup : c.ilog.Nodup
+  done  : ∀ i : Nat, i ∈ c.ilog ↔ ∃ t : Thread, c.threads[i]? = some t ∧ t.pc.isDone = true
+  image : c.log = c.ilog.filterMap (fun i => ops[i]?)
+
+theorem loginv_init (ops : List Op) : LogInv ops (initCfg ops) := by
+  refine ⟨by simp [initCfg, Function.comp_def], List.nodup_nil, ?_, rfl⟩
+  intro i
+  simp only [initCfg, List.not_mem_nil, false_iff, List.getElem?_map]
+  rintro ⟨t, ht, hd⟩
+  cases ho : ops[i]? with
+  | none => simp [ho] at ht
+  | some o => simp only [ho, Option.map_some, Option.some.injEq] at ht; subst ht; simp [PC.isDone] at hd
+
+theorem loginv_cstep (fixed : Bool) {ops : List Op} {c : Cfg} (h : LogInv ops c) (i : Nat) :
+    LogInv ops (cstep fixed c i) := by
+  unfold cstep
+  cases hi : c.threads[i]? with
+  | none => exact h
+  | some t =>
+    simp only
+    have hlt : i < c.threads.length := by
+      rcases Nat.lt_or_ge i c.threads.length with hh | hh
+      · exact hh
+      · rw [List.getElem?_eq_none hh] at hi; cases hi
+    have hop : ops[i]? = some t.op := by
+      rw [← h.opsEq, List.getElem?_map, hi]; rfl
+    have hcm := tstep_commit fixed c.heap t
+    refine ⟨?_, ?_, ?_, ?_⟩
+    · rw [← h.opsEq]
+      apply List.ext_getElem?
+      intro j
+      by_cases hij : i = j
+      · subst hij; rw [List.getElem?_map, List.getElem?_set_self hlt, List.getElem?_map, hi]; rfl
+      · rw [List.getElem?_map, List.getElem?_set_ne hij, List.getElem?_map]
+    · by_cases hc : (tstep fixed c.heap t).commit = true
+      · simp only [hc, if_true]
+        rw [List.nodup_append]
+        refine ⟨h.nodup, by simp, ?_⟩
+        intro a ha b hb
+        simp only [List.mem_singleton] at hb
+        subst hb
+        rintro rfl
+        obtain ⟨t', ht', hd'⟩ := (h.done a).mp ha
+        rw [hi] at ht'; cases ht'
+        rw [hcm] at hc; simp [hd'] at hc
+      · simp only [hc, Bool.false_eq_true, if_false]; exact h.nodup
+    · intro j
+      by_cases hij : i = j
+      · subst hij
+        rw [List.getElem?_set_self hlt]
+        by_cases hc : (tstep fixed c.heap t).commit = true
+        · simp only [hc, if_true, List.mem_append, List.mem_singleton, or_true, true_iff]
+          rw [hcm] at hc
+          simp only [Bool.and_eq_true] at hc
+          exact ⟨_, rfl, hc.2⟩
+        · simp only [hc, Bool.false_eq_true, if_false]
+          rw [h.done i]
+          constructor
+          · rintro ⟨t', ht', hd'⟩
+            rw [hi] at ht'
+            have ht'' : t = t' := Option.some.inj ht'
+            subst ht''
+            exact ⟨_, rfl, tstep_done_stays fixed c.heap t hd'⟩
+          · rintro ⟨t', ht', hd'⟩
+            simp only [Option.some.injEq] at ht'
+            subst ht'
+            simp only at hd'
+            refine ⟨t, hi, ?_⟩
+            rw [hcm] at hc
+            cases hdd : t.pc.isDone
+            · simp [hdd, hd'] at hc
+            · rfl
+      · rw [List.getElem?_set_ne hij]
+        by_cases hc : (tstep fixed c.heap t).commit = true
+        · simp only [hc, if_true, List.mem_append, List.mem_singleton]
+          rw [h.done j]
+          constructor
+          · rintro (hx | hx)
+            · exact hx
+            · exact absurd hx.symm hij
+          · exact Or.inl
+        · simp only [hc, Bool.false_eq_true, if_false]; exact h.done j
+    · by_cases hc : (tstep fixed c.heap t).commit = true
+      · simp only [hc, if_true, h.image, List.filterMap_append, List.filterMap_cons, hop,
+          List.filterMap_nil]
+      · simp only [hc, Bool.false_eq_true, if_false]; exact h.image
+
+theorem loginv_crun (fixed : Bool) {ops : List Op} (sched : List Nat) {c : Cfg} (h : LogInv ops c) :
+    LogInv ops (crun fixed c sched) := by
+  induction sched generalizing c with
+  | nil => exact h
+  | cons i rest ih => exact ih (loginv_cstep fixed h i)
+
+theorem crun_append (fixed : Bool) (c : Cfg) (s1 s2 : List Nat) :
+    crun fixed c (s1 ++ s2) = crun fixed (crun fixed c s1) s2 := by
+  simp [crun, List.foldl_append]
+
+/-- The commit log only grows. -/
+theorem ilog_prefix (fixed : Bool) (sched : List Nat) (c : Cfg) :
+    ∃ tail, (crun fixed c sched).ilog = c.ilog ++ tail := by
+  induction sched generalizing c with
+  | nil => exact ⟨[], by simp [crun]⟩
+  | cons i rest ih =>
+    obtain ⟨tail, ht⟩ := ih (cstep fixed c i)
+    have hstep : ∃ t1, (cstep fixed c i).ilog = c.ilog ++ t1 := by
+      unfold cstep
+      cases c.threads[i]? with
+      | none => exact ⟨[], by simp⟩
+      | some t =>
+        simp only
+        split
+        · exact ⟨[i], rfl⟩
+        · exact ⟨[], by simp⟩
+    obtain ⟨t1, h1⟩ := hstep
+    refine ⟨t1 ++ tail, ?_⟩
+    simp only [crun, List.foldl_cons] at ht ⊢
+    rw [ht, h1, List.append_assoc]
+
+/-- A thread that is not scheduled does not move. -/
+theorem thread_untouched (fixed : Bool) (sched : List Nat) (c : Cfg) (b : Nat) (hb : b ∉ sched) :
+    (crun fixed c sched).threads[b]? = c.threads[b]? := by
+  induction sched generalizing c with
+  | nil => rfl
+  | cons i rest ih =>
+    simp only [List.mem_cons, not_or] at hb
+    simp only [crun, List.foldl_cons] at ih ⊢
+    rw [ih _ hb.2]
+    unfold cstep
+    cases c.threads[i]? with
+    | none => rfl
+    | some t => simp only; rw [List.getElem?_set_ne (fun e => hb.1 e.symm)]
+
+/-- **The commit order respects real time.** If operation `a` has completed after the schedule
+    prefix `s1` and operation `b` has not taken a step in `s1`, then in the commit order of any
+    continuation `a` comes before `b`: the final thread log is the log after `s1` - which contains
+    `a` and not `b` - followed by the later commits, and it has no duplicates. -/
+theorem commit_order_respects_real_time (fixed : Bool) (ops : List Op) (s1 s2 : List Nat) (a b : Nat)
+    (hdone : ∃ t, (crun fixed (initCfg ops) s1).threads[a]? = some t ∧ t.pc.isDone = true)
+    (hb : b ∉ s1) :
+    ∃ tail, (crun fixed (initCfg ops) (s1 ++ s2)).ilog = (crun fixed (initCfg ops) s1).ilog ++ tail ∧
+      a ∈ (crun fixed (initCfg ops) s1).ilog ∧ b ∉ (crun fixed (initCfg ops) s1).ilog ∧
+      (crun fixed (initCfg ops) (s1 ++ s2)).ilog.Nodup ∧
+      (crun fixed (initCfg ops) (s1 ++ s2)).log =
+        (crun fixed (initCfg ops) (s1 ++ s2)).ilog.filterMap (fun i => ops[i]?) := by
+  have h1 := loginv_crun fixed s1 (loginv_init ops)
+  have h2 := loginv_crun fixed (s1 ++ s2) (loginv_init ops)
+  obtain ⟨tail, ht⟩ := ilog_prefix fixed s2 (crun fixed (initCfg ops) s1)
+  refine ⟨tail, by rw [crun_append]; exact ht, (h1.done a).mpr hdone, ?_, h2.nodup, h2.image⟩
+  intro hbin
+  obtain ⟨t, ht', hd⟩ := (h1.done b).mp hbin
+  rw [thread_untouched fixed s1 _ b hb] at ht'
+  simp only [initCfg, List.getElem?_map] at ht'
+  cases ho : ops[b]? with
+  | none => simp [ho] at ht'
+  | some o => simp only [ho, Option.map_some, Option.some.injEq] at ht'; subst ht'; simp [PC.isDone] at hd
+
 /-! ## The statement and the theorems -/
 
 /-- **The concurrent clause of the property (full statement).** Whatever the operations, however
     many goroutines and whatever the interleaving of their lock regions, once all operations have
-    finished the index is the result of executing them one at a time in some order. -/
+    finished the index is the result of executing them one at a time **in their commit order**
+    (`Cfg.log`: each operation is placed at its last lock region, a point between its first and its
+    last step), and that order is a permutation of the operations.  By
+    `commit_order_respects_real_time` it orders an operation that completed before another started
+    first, so "latest report" means latest in real time for non-overlapping operations. -/
 def Linearizable (fixed : Bool) : Prop :=
   ∀ (ops : List Op) (sched : List Nat), (crun fixed (initCfg ops) sched).allDone = true →
-    ∃ order : List Op, order.Perm ops ∧ (crun fixed (initCfg ops) sched).heap.index = run Index.empty order
+    (crun fixed (initCfg ops) sched).log.Perm ops ∧
+    (crun fixed (initCfg ops) sched).heap.index = run Index.empty (crun fixed (initCfg ops) sched).log
 
-/-- **index_linearizable** (repaired code, commit 16f5918): the full statement holds, and the
-    sequential order is the order of the commit regions (each operation takes effect at one point
-    between its first and its last region, so the order also respects real time). -/
+/-- **index_linearizable** (repaired code, commit 16f5918): the full statement holds. -/
 theorem index_linearizable : Linearizable true := by
   intro ops sched hd
   have hinv := inv_crun sched (inv_init ops)
-  refine ⟨(crun true (initCfg ops) sched).log, ?_, ?_⟩
+  refine ⟨?_, ?_⟩
   · have := hinv.perm
     rw [pendingOps_of_allDone hd, List.append_nil] at this
     exact this
-  · funext k
+  · apply Index.ext
+    intro k
     rcases hinv.sim k with hl | ⟨_, _, hw⟩
     · exact hl
     · exact absurd hw (no_wit_of_allDone hd k _)
@@ -560,7 +730,18 @@ def witnessSched : List Nat := [0, 0, 1, 0]
     order of the two leaves registry c2's report in the index, and the concurrent run loses it. -/
 theorem lost_update_witness_unfixed : ¬ Linearizable false := by
   intro hlin
-  obtain ⟨order, hperm, heq⟩ := hlin witnessOps witnessSched (by decide)
+  obtain ⟨hperm, heq⟩ := hlin witnessOps witnessSched (by decide)
+  have hseq : view (run Index.empty (crun false (initCfg witnessOps) witnessSched).log) kA skB = some [ep2] :=
+    any_order_keeps_report witnessOps _ skB kA [ep2] hperm (by simp) (by simp [witnessOps]) (by decide)
+  have hconc : view (crun false (initCfg witnessOps) witnessSched).heap.index kA skB = none := by decide
+  rw [heq, hseq] at hconc
+  cases hconc
+
+/-- ... and not only the commit order fails: **no** sequential order of the two operations gives
+    the index that the pinned code ends with. -/
+theorem lost_update_no_sequential_order (order : List Op) (hperm : order.Perm witnessOps) :
+    (crun false (initCfg witnessOps) witnessSched).heap.index ≠ run Index.empty order := by
+  intro heq
   have hseq : view (run Index.empty order) kA skB = some [ep2] :=
     any_order_keeps_report witnessOps order skB kA [ep2] hperm (by simp) (by simp [witnessOps]) (by decide)
   have hconc : view (crun false (initCfg witnessOps) witnessSched).heap.index kA skB = none := by decide
@@ -626,7 +807,8 @@ theorem crun_false_eq_true (sched : List Nat) (c : Cfg) (hfree : orphanFree c sc
 theorem index_linearizable_partial_unfixed (ops : List Op) (sched : List Nat)
     (hfree : orphanFree (initCfg ops) sched = true)
     (hd : (crun false (initCfg ops) sched).allDone = true) :
-    ∃ order : List Op, order.Perm ops ∧ (crun false (initCfg ops) sched).heap.index = run Index.empty order := by
+    (crun false (initCfg ops) sched).log.Perm ops ∧
+    (crun false (initCfg ops) sched).heap.index = run Index.empty (crun false (initCfg ops) sched).log := by
   rw [crun_false_eq_true sched _ hfree] at hd ⊢
   exact index_linearizable ops sched hd
 
